@@ -45,6 +45,16 @@ def run(chk):
                     if not B.consistent(p, pe, b):
                         continue
                     stores = [e for e in p.events if e.kind in ('store', 'aug', 'assign') and e.target == r.table]
+                    if regular:
+                        # flags reset (R2)
+                        xp, xxp = B.post(p, r.x, B.evaluator({'bid': b, 'x': True, 'xx': True})), \
+                            B.post(p, r.xx, B.evaluator({'bid': b, 'x': True, 'xx': True}))
+                        chk.require(xp is False and xxp is False, 'C03.R2', B.where, B.qual, f'flags after bid {b}',
+                                    f'a new bid {b} clears doubled and redoubled', f'after a new bid {b} the flags are ({xp},{xxp})')
+                        lb, lbd = B.post(p, r.last_bid, pe), B.post(p, r.last_bidder, pe)
+                        chk.require(lb == b and lbd == a, 'C03.R2', B.where, B.qual, f'last bid/bidder after {b} by {a.name}',
+                                    f'{b} by {a.name} becomes the last bid / last bidder',
+                                    f'after {b} by {a.name} last bid = {lb}, last bidder = {lbd}')
                     if not regular or occupied:
                         chk.require(not stores, 'C03.R1', B.repo.where(B.mod, stores[0].node) if stores else B.where, B.qual,
                                     ast.unparse(stores[0].node) if stores else f'no table write for {b}',
@@ -65,15 +75,6 @@ def run(chk):
                                 ast.unparse(stores[0].node) if stores else f'table write for {b}',
                                 f'first {b} of side {apair} records {a.name} under its side and denomination',
                                 f'{b} by {a.name} with the slot empty: {why}', path=p.describe())
-                    # flags reset (R2)
-                    xp, xxp = B.post(p, r.x, B.evaluator({'bid': b, 'x': True, 'xx': True})), \
-                        B.post(p, r.xx, B.evaluator({'bid': b, 'x': True, 'xx': True}))
-                    chk.require(xp is False and xxp is False, 'C03.R2', B.where, B.qual, f'flags after bid {b}',
-                                f'a new bid {b} clears doubled and redoubled', f'after a new bid {b} the flags are ({xp},{xxp})')
-                    lb, lbd = B.post(p, r.last_bid, pe), B.post(p, r.last_bidder, pe)
-                    chk.require(lb == b and lbd == a, 'C03.R2', B.where, B.qual, f'last bid/bidder after {b} by {a.name}',
-                                f'{b} by {a.name} becomes the last bid / last bidder',
-                                f'after {b} by {a.name} last bid = {lb}, last bidder = {lbd}')
     chk.floor('C03.R1', 'first-to-name stores evaluated', n_store, 35 * 4)
     # non-bids leave last bid / bidder alone
     for b in B.bids[nb - 3:]:
